@@ -172,3 +172,51 @@ package vecengine
 //@   ensures  [fork4] !(e.SelfParent() == nil && old(vi.bi.BranchIDLastSeq[meIdx]) == 0) && !(e.SelfParent() != nil && (old(vi.bi.BranchIDLastSeq[gBranchOf[deref(e.SelfParent())]]) + 1) % 4294967296 == e.Seq()) ==> len(vi.bi.BranchIDByCreators[meIdx]) == old(len(vi.bi.BranchIDByCreators[meIdx])) + 1 && vi.bi.BranchIDByCreators[meIdx][len(vi.bi.BranchIDByCreators[meIdx]) - 1] == result0
 //@   ensures  [fork5] !(e.SelfParent() == nil && old(vi.bi.BranchIDLastSeq[meIdx]) == 0) && !(e.SelfParent() != nil && (old(vi.bi.BranchIDLastSeq[gBranchOf[deref(e.SelfParent())]]) + 1) % 4294967296 == e.Seq()) ==> forall(j, 0, old(len(vi.bi.BranchIDByCreators[meIdx])), vi.bi.BranchIDByCreators[meIdx][j] == old(vi.bi.BranchIDByCreators[meIdx][j]))
 //@   ensures  [kept] forall(br, 0, old(len(vi.bi.BranchIDCreatorIdxs)), vi.bi.BranchIDCreatorIdxs[br] == old(vi.bi.BranchIDCreatorIdxs[br]) && (br != result0 ==> vi.bi.BranchIDLastSeq[br] == old(vi.bi.BranchIDLastSeq[br])))
+//@
+//@ // ---- fillEventVectors (C05, C06): the vectors of a new event ----
+//@ // owner callbacks used here
+//@ funcfield Callbacks.NewLowestAfter
+//@   params size
+//@   ensures  typeis(result, "*vecfc.LowestAfterSeq") && unbox(result, "*vecfc.LowestAfterSeq") != nil && fresh(unbox(result, "*vecfc.LowestAfterSeq")) && lawf(deref(unbox(result, "*vecfc.LowestAfterSeq"))) && len(deref(unbox(result, "*vecfc.LowestAfterSeq"))) == 4 * size && forall(j, 0, len(deref(unbox(result, "*vecfc.LowestAfterSeq"))), deref(unbox(result, "*vecfc.LowestAfterSeq"))[j] == 0) && arrfresh(deref(unbox(result, "*vecfc.LowestAfterSeq")), old(_alloc))
+//@ funcfield Callbacks.GetLowestAfter
+//@   params id
+//@   ensures  result == gLAI[id] && (result != nil ==> typeis(result, "*vecfc.LowestAfterSeq") && unbox(result, "*vecfc.LowestAfterSeq") != nil && lawf(deref(unbox(result, "*vecfc.LowestAfterSeq"))))
+//@ funcfield Callbacks.SetHighestBefore
+//@   params id, vec
+//@   modifies gHBI[id]
+//@   ghost gHBI[id] = vec
+//@ funcfield Callbacks.SetLowestAfter
+//@   params id, vec
+//@   modifies gLAI[id]
+//@   ghost gLAI[id] = vec
+//@ trusted func (*Engine).DfsSubgraph
+//@   requires vi != nil
+//@   modifies gLAI[*], allelems(byte), allcells("vecfc.LowestAfterSeq")
+//@ // marked(b, br): branch br is fork-marked in vector b; empty(b, br): nothing of branch br is observed
+//@ spec emptyB(b []byte, br int) bool = hbSeq(b, br) == 0 && !hbFork(b, br)
+//@ // overlap(b, x, y): both branches are observed and their sequence intervals [MinSeq, Seq] intersect: two different
+//@ // events of one creator with the same sequence number are in the ancestry
+//@ spec overlap(b []byte, x int, y int) bool = !emptyB(b, x) && !emptyB(b, y) && hbMin(b, x) <= hbSeq(b, y) && hbMin(b, y) <= hbSeq(b, x)
+//@ // uniform(bi, b, c): the branches of validator c are all fork-marked or none is
+//@ spec uniform(bi *BranchesInfo, b []byte, c int) bool = forall(j, 0, len(bi.BranchIDByCreators[c]), hbFork(b, bi.BranchIDByCreators[c][j])) || forall(j, 0, len(bi.BranchIDByCreators[c]), !hbFork(b, bi.BranchIDByCreators[c][j]))
+//@ // nooverlap(bi, b, c): no two different branches of validator c overlap
+//@ spec nooverlap(bi *BranchesInfo, b []byte, c int) bool = forall(i, 0, len(bi.BranchIDByCreators[c]), forall(j, 0, len(bi.BranchIDByCreators[c]), bi.BranchIDByCreators[c][i] != bi.BranchIDByCreators[c][j] ==> !overlap(b, bi.BranchIDByCreators[c][i], bi.BranchIDByCreators[c][j])))
+//@
+//@ // fillEventVectors(e): parents' vectors are loaded (a missing one is an error before anything is stored); the new
+//@ // highest-before vector starts as 'e observes itself', absorbs every parent's vector, and -- when forks exist -- ends
+//@ // up (checked at the point where it is complete, before the graph walk) with: (1) e's own entry is e's sequence number
+//@ // or a fork mark; (2) per validator all branches marked or none; (3) for a validator whose own branch is not marked no
+//@ // two of its branches overlap, i.e. every fork visible in the merged intervals IS marked. The vectors and the branch ID
+//@ // are stored under e's ID.
+//@ func (*Engine).fillEventVectors
+//@   requires vi != nil && e != nil && valid(vi.validators) && len(vi.validators.values) <= 536870910 && vi.validatorIdxs == vi.validators.cache.indexes && has(vi.validatorIdxs, e.Creator())
+//@   requires biwf(vi.bi, len(vi.validators.values)) && len(vi.bi.BranchIDCreatorIdxs) < 536870910 && bilists(vi.bi, len(vi.validators.values)) && bisep(vi.bi, len(vi.validators.values))
+//@   requires vi.callback.NewHighestBefore != nil && vi.callback.NewLowestAfter != nil && vi.callback.GetHighestBefore != nil && vi.callback.GetLowestAfter != nil && vi.callback.SetHighestBefore != nil && vi.callback.SetLowestAfter != nil && vi.crit != nil && vi.getEvent != nil
+//@   requires e.SelfParent() != nil ==> gBranchOf[deref(e.SelfParent())] < len(vi.bi.BranchIDCreatorIdxs)
+//@   requires e.Seq() >= 1 && e.Seq() <= 2147483646
+//@   modifies vi.bi.BranchIDLastSeq, vi.bi.BranchIDLastSeq[*], vi.bi.BranchIDCreatorIdxs, vi.bi.BranchIDCreatorIdxs[*], vi.bi.BranchIDByCreators[*], allelems(idx.Validator), gHBI[*], gLAI[*], gBranchOf[*], allelems(byte), allcells("vecfc.LowestAfterSeq")
+//@   at call vecengine.Engine).DfsSubgraph[1] requires [self] hbFork(hv(myVecs.before), meBranchID) || hbSeq(hv(myVecs.before), meBranchID) == e.Seq()
+//@   at call vecengine.Engine).DfsSubgraph[1] requires [uniform] len(vi.bi.BranchIDCreatorIdxs) > len(vi.validators.values) ==> forall(c, 0, len(vi.validators.values), uniform(vi.bi, hv(myVecs.before), c))
+//@   at call vecengine.Engine).DfsSubgraph[1] requires [detected] len(vi.bi.BranchIDCreatorIdxs) > len(vi.validators.values) ==> forall(c, 0, len(vi.validators.values), !hbFork(hv(myVecs.before), c) ==> nooverlap(vi.bi, hv(myVecs.before), c))
+//@   ensures  [stored] result1 == nil ==> gHBI[e.ID()] == result0.before && gLAI[e.ID()] == result0.after && isHB(result0.before)
+//@   ensures  [missing] exists(i, 0, len(e.Parents()), old(gHBI[e.Parents()[i]]) == nil) ==> result1 != nil && gHBI[e.ID()] == old(gHBI[e.ID()])
